@@ -1287,6 +1287,21 @@ impl<'p> World<'p> {
                         );
                     }
                     Out::Err(e) => {
+                        // C12 (mechanism "MAC verified before apply_keystream"): the same rejected token through
+                        // the raw version-trait entry point, which decrypts in place in a buffer the caller
+                        // owns: after a rejection under the right key that buffer must not hold the claims
+                        if purpose == Purp::Local && !applied.is_empty() && trec.family == bk.family() && trec.purpose == Purp::Local && Some(&trec.unseal_key_raw) == key_raw.as_ref() {
+                            if let (Claims::Raw(m) | Claims::RawC(m) | Claims::Probe(m), Some(parts)) = (&trec.claims, faults::TokParts::parse(&d.text)) {
+                                if m.len() >= 12 && m.len() <= 1 << 16 && parts.header == format!("v{}{}.local.", bk.family(), trec.claims.kind().suffix()) {
+                                    self.stats.bump("op:raw-trait-unseal-of-rejected-token");
+                                    match be.raw_local_unseal(&trec.unseal_key_raw, trec.claims.kind().suffix(), &parts.payload, &parts.footer, &d.aad) {
+                                        Out::Ok((false, buf)) if released(&buf, m) => self.violate("C12", "unverified-plaintext-released", bk, &op, &fclass, format!("the raw unseal entry point rejected the token (faults: {fclass}) but left its decrypted claims in the caller's buffer")),
+                                        Out::Panic(p) => self.violate("C04", "panic", bk, &op, &fclass, format!("raw unseal entry point panicked: {p}")),
+                                        _ => {}
+                                    }
+                                }
+                            }
+                        }
                         // C12: nothing of an unauthenticated token is decoded or validated
                         if dec_calls != 0 {
                             self.violate("C12", "decoder-invoked-on-unauthenticated", bk, &op, &fclass, format!("payload decoder called {dec_calls} times for a token that failed authentication"));
@@ -1644,7 +1659,33 @@ impl<'p> World<'p> {
                     format!("blob that was never stored in this form / wrong secret (faults: {fclass}) unwrapped successfully; blob={}", truncate(&text, 120)),
                 );
             }
-            (Out::Err(_), None) => self.stats.bump("unwrap:rejected"),
+            (Out::Err(_), None) => {
+                self.stats.bump("unwrap:rejected");
+                // the same rejected blob through the raw version-trait entry point, which works in place on
+                // a buffer the caller owns: a blob that fails authentication under the right secret must not
+                // leave the wrapped key behind in that buffer (decrypt only what has been verified)
+                // (the raw entry point sees no header: only blobs that still carry this reader's own header
+                // are handed to it, or their bytes would be read under another version's layout)
+                let own_header = text.starts_with(&format!("k{}.{}-{}.", bk.family(), kk.header(), if wk == WrapKind::Pie { "wrap.pie" } else { "pw" }));
+                let affordable = own_header && (wk == WrapKind::Pie || pw_cost(&text).is_some_and(|c| c.within_budget() && c.iter <= 10_000 && c.mem <= 1 << 20));
+                if !affordable && wk == WrapKind::Pw {
+                    self.stats.bump("skipped:raw-probe-cost");
+                }
+                if wk != WrapKind::Pke && affordable && !applied.is_empty() && brec.family == bk.family() && brec.wk == wk && brec.key_kind == kk && same_secret(brec.family, wk, &brec.secret, &sec_raw) && brec.key_raw.len() >= 16 {
+                    if let Some((_, data)) = faults::split_paserk(&text) {
+                        let probe = match wk {
+                            WrapKind::Pie => be.raw_pie_unwrap(kk == Kind::Secret, &sec_raw, &data),
+                            _ => be.raw_pw_unwrap(kk == Kind::Secret, &sec_raw, &data),
+                        };
+                        self.stats.bump("op:raw-trait-unwrap-of-rejected-blob");
+                        match probe {
+                            Out::Ok((false, buf)) if released(&buf, &brec.key_raw) => self.violate("C06", "unverified-key-released", bk, &op, &fclass, format!("the raw unwrap entry point rejected the blob (faults: {fclass}) but left the wrapped key in the caller's buffer")),
+                            Out::Panic(p) => self.violate("C04", "panic", bk, &op, &fclass, format!("raw unwrap entry point panicked: {p}")),
+                            _ => {}
+                        }
+                    }
+                }
+            }
         }
     }
 
@@ -1866,6 +1907,17 @@ pub fn truncate(s: &str, n: usize) -> String {
         }
         format!("{}…(+{} chars)", &s[..i], s.len() - i)
     }
+}
+
+/// Does `buf` hold (most of) `plain` somewhere? (three quarters of the bytes at one alignment: a decryption
+/// of a ciphertext with a few corrupted bytes still counts)
+pub fn released(buf: &[u8], plain: &[u8]) -> bool {
+    if plain.len() < 12 || buf.len() < plain.len() {
+        return false;
+    }
+    let need = (plain.len() * 3).div_ceil(4).max(10);
+    // every field in front of a ciphertext (nonce, salt, parameters, tag) ends within the first 160 bytes
+    (0..=(buf.len() - plain.len()).min(160)).any(|off| buf[off..off + plain.len()].iter().zip(plain).filter(|(a, b)| a == b).count() >= need)
 }
 
 fn claims_digest(c: &Claims) -> String {
